@@ -319,6 +319,7 @@ theorem candidates_ok (hid : (ms.map (·.id)).Nodup) (k : Key) (hne : k ≠ [])
       (fun a b => cfg.hRank a ≤ cfg.hRank b)).map (mkCand ms (k.map (slotRes cfg ms (keyNargs k) (keyNames k))))) := by
     unfold candidates
     rw [hrs]
+    simp only [List.isEmpty_eq_false_iff.mpr hne, Bool.false_eq_true, if_false]
   refine ⟨_, hc, candidates_nodup cfg ms hid k _ hc, ?_, ?_⟩
   · intro c hcm
     obtain ⟨id, hidm, rfl⟩ := List.mem_map.mp hcm
@@ -344,4 +345,50 @@ theorem candidates_ok (hid : (ms.map (·.id)).Nodup) (k : Key) (hne : k ≠ [])
 
 end
 
+/-! ## the call without arguments (`k = []`): the candidates are the methods that require no argument -/
+
+theorem arityOK_nil (m : Meth) : arityOK m [] = (m.reqPos == 0 && m.reqNames.isEmpty) := by
+  unfold arityOK keyNargs keyNames
+  cases h : m.reqNames <;> simp
+  cases h0 : m.reqPos <;> simp
+
+theorem applicableTo_nil (H : Hier) (m : Meth) :
+    applicableTo H [] m = (m.reqPos == 0 && m.reqNames.isEmpty) := by
+  unfold applicableTo
+  rw [arityOK_nil, List.all_nil, Bool.and_true]
+
+theorem mem_zeroArgIds (H : Hier) (ms : List Meth) (id : Nat) :
+    id ∈ zeroArgIds ms ↔ ∃ m ∈ ms, m.id = id ∧ applicableTo H [] m = true := by
+  unfold zeroArgIds
+  simp only [List.mem_map, List.mem_filter, applicableTo_nil]
+  constructor
+  · rintro ⟨m, ⟨hm, h⟩, e⟩; exact ⟨m, hm, e, h⟩
+  · rintro ⟨m, hm, e, h⟩; exact ⟨m, ⟨hm, h⟩, e⟩
+
+theorem candidates_nil (cfg : Cfg) (ms : List Meth) :
+    candidates cfg ms [] = some (((zeroArgIds ms).mergeSort (fun a b => cfg.hRank a ≤ cfg.hRank b)).map (mkCand ms [])) := by
+  rfl
+
+theorem candidates_ok_nil (cfg : Cfg) (ms : List Meth) (hid : (ms.map (·.id)).Nodup) :
+    ∃ cs, candidates cfg ms [] = some cs ∧ CandsOK cfg ms [] cs := by
+  refine ⟨_, candidates_nil cfg ms, candidates_nodup cfg ms hid [] _ (candidates_nil cfg ms), ?_, ?_⟩
+  · intro c hcm
+    obtain ⟨id, hidm, rfl⟩ := List.mem_map.mp hcm
+    rw [(List.mergeSort_perm _ _).mem_iff] at hidm
+    obtain ⟨m, hm, hmid, happ⟩ := (mem_zeroArgIds cfg.H ms id).mp hidm
+    subst hmid
+    refine ⟨m, hm, rfl, happ, ?_, ?_, rfl⟩
+    · simp only [mkCand, findMeth_of_mem ms hid m hm, Option.getD_some]
+    · simp only [mkCand, findMeth_of_mem ms hid m hm, Option.getD_some]
+  · intro m hm happ
+    have : m.id ∈ zeroArgIds ms := (mem_zeroArgIds cfg.H ms m.id).mpr ⟨m, hm, rfl, happ⟩
+    exact ⟨mkCand ms _ m.id,
+      List.mem_map.mpr ⟨m.id, (List.mergeSort_perm _ _).mem_iff.mpr this, rfl⟩, rfl⟩
+
+theorem candidates_ok_all (cfg : Cfg) (ms : List Meth) (hid : (ms.map (·.id)).Nodup) (k : Key)
+    (hall : ∀ e ∈ k, SlotOK cfg ms e) :
+    ∃ cs, candidates cfg ms k = some cs ∧ CandsOK cfg ms k cs := by
+  by_cases hne : k = []
+  · subst hne; exact candidates_ok_nil cfg ms hid
+  · exact candidates_ok cfg ms hid k hne hall
 end Ovld
